@@ -46,6 +46,8 @@ std::unique_ptr<NodeResult> ReadFileNode::evaluate(PSC::Context &ctx) {
     PSC::Variable *var = ctx.getVariable(identifier.value);
     if (var != nullptr && var->type != PSC::DataType::STRING)
         throw PSC::RuntimeError(token, ctx, "Variable of type STRING expected");
+    if (var != nullptr && var->isConstant)
+        throw PSC::ConstAssignError(token, ctx, var->name);
     if (var == nullptr) {
         var = new PSC::Variable(identifier.value, PSC::DataType::STRING, false, &ctx);
         ctx.addVariable(var);
@@ -183,6 +185,9 @@ std::unique_ptr<NodeResult> GetRecordNode::evaluate(PSC::Context &ctx) {
     if ((variable != nullptr && variable->type == PSC::DataType::POINTER)
         || (array != nullptr && array->type == PSC::DataType::POINTER))
         throw PSC::RuntimeError(token, ctx, "Pointers cannot be stored in random files");
+
+    if (variable != nullptr && variable->isConstant)
+        throw PSC::ConstAssignError(token, ctx, variable->name);
 
     if (variable != nullptr) {
         if (!file->getRecord(*variable, ctx))
